@@ -43,7 +43,7 @@ def load_variants():
 
 
 def run_check(pid: str, root: Path, evid: Path):
-    env = dict(os.environ, FICKLING_REPO=str(root), SA_EVIDENCE_DIR=str(evid))
+    env = dict(os.environ, FICKLING_REPO=str(root), SA_EVIDENCE_DIR=str(evid), SA_JOBS=os.environ.get("SA_JOBS", "2"), SA_CACHE_DIR=os.environ.get("SA_CACHE_DIR", "/tmp/sa-cache"))
     p = subprocess.run([PY, "-m", "sa.check", pid], cwd=VERIF, env=env, capture_output=True, text=True, timeout=600)
     return p.returncode, p.stdout + p.stderr
 
